@@ -6,7 +6,7 @@
 From Coq Require Import ZArith List Bool.
 From DV Require Import Model.PyPrims Model.C09AlphaTypes Model.C09Alphabets Model.C09Model Model.C09Spec
   Model.C09Nexus Model.C09Convert Proofs.C09Text Proofs.C09Fasta Proofs.C09PhylipInst Proofs.C09NexusProofs
-  Proofs.C09NexusStd Proofs.C09Main Proofs.C09Examples.
+  Model.C09Dataset Proofs.C09NexusStd Proofs.C09Dataset Proofs.C09Main Proofs.C09Examples.
 Import ListNotations.
 Open Scope Z_scope.
 
@@ -100,7 +100,7 @@ Theorem nexus_chars_roundtrip : forall (lower : text -> text) (dt : dtype) (simp
   rectangular nchar m = true ->
   exists toks st',
     write_chars_block dt [alphabet_of_dtype dt] [] (mkNW simple None None) m = Ok toks
-    /\ read_chars_block lower
+    /\ read_chars_block lower keep_ns
          (if simple then nx_init [] None cs else nx_init (map fst m) (Some (len m)) cs) toks
        = Ok (st', [mkBR dt (alphabet_of_dtype dt) m (map fst m) None None], [EOL; EOL; EOL]).
 Proof. exact nexus_chars_roundtrip_l. Qed.
@@ -123,7 +123,7 @@ Theorem nexus_chars_roundtrip_standard : forall (lower : text -> text) (dt : dty
   rectangular nchar m = true ->
   exists toks st' b rows',
     write_chars_block dt [a] sym_order (mkNW simple None None) m = Ok toks
-    /\ read_chars_block lower
+    /\ read_chars_block lower keep_ns
          (if simple then nx_init [] None cs else nx_init (map fst m) (Some (len m)) cs) toks
        = Ok (st', [mkBR DtStandard b rows' (map fst m) None None], [EOL; EOL; EOL])
     /\ map fst rows' = map fst m
@@ -145,3 +145,47 @@ Theorem convert_preserves : forall (lower : text -> text) (dt : dtype) (nchar : 
   (do m1 <- through lower dt f1 m ;; through lower dt f2 m1) = Ok m.
 Proof. exact convert_preserves_l. Qed.
 Print Assumptions convert_preserves.
+
+(* Data sets with several taxon namespaces, NEXUS, token level (PARTIAL).
+   `nss` is the reader's table of namespaces after the TAXA blocks: (title, taxon labels) in
+   document order; titles pairwise different after .upper() (what NexusReader compares).  A
+   CHARACTERS block of a matrix over the i-th namespace, written with its own TITLE and
+   LINK TAXA = <title of namespace i>, and read with the data-set resolver
+   (NexusReader._get_taxon_namespace), comes back as exactly that matrix attached to a namespace
+   carrying exactly its own labels; NTAX left by the last TAXA block (`nt`, any non-zero value)
+   and the namespace the reader held before (`ns0`) do not matter.
+   Missing for the full statement: reading the TAXA blocks' tokens into `nss` and the payload of
+   TREES blocks are the token-level tree reader's (C02; a TREES block resolves its LINK through
+   the same function); the STANDARD-family data types; NeXML (oracle only). *)
+Theorem multi_namespace_roundtrip_partial : forall (lower : text -> text) (nss : list (tok * list text))
+    (i : nat) (title : tok) (dt : dtype) (cs : bool) (m : matrix) (nchar nt : Z) (ct : tok) (ns0 : list text),
+  NoDup (map ucase (map fst nss)) ->
+  nth_error nss i = Some (title, map fst m) ->
+  fixed_dtype dt = true ->
+  m <> [] -> 1 <= nchar -> nt <> 0 ->
+  is_eol ct = false -> is_eol title = false ->
+  forallb label_token_ok (map fst m) = true ->
+  NoDup (map (keyf lower cs) (map fst m)) ->
+  cells_ok (alphabet_of_dtype dt) m = true ->
+  rectangular nchar m = true ->
+  exists toks st',
+    write_chars_block dt [alphabet_of_dtype dt] [] (mkNW false (Some ct) (Some title)) m = Ok toks
+    /\ read_chars_block lower (resolve_in (tab_of nss)) (nx_init ns0 (Some nt) cs) toks
+       = Ok (st', [mkBR dt (alphabet_of_dtype dt) m (map fst m) (Some ct) (Some title)], [EOL; EOL; EOL]).
+Proof. exact multi_namespace_roundtrip_l. Qed.
+Print Assumptions multi_namespace_roundtrip_partial.
+
+(* the titles the writer hands out are pairwise different strings ... *)
+Theorem block_titles_distinct : forall labels used ts, NoDup used ->
+  assign_titles labels used = Ok ts -> NoDup (used ++ ts).
+Proof. exact assign_titles_distinct. Qed.
+Print Assumptions block_titles_distinct.
+
+(* ... which is not enough for the reader, which compares titles after .upper(): namespaces
+   labelled "ns" and "NS" get different titles and neither LINK resolves (defect, replayed on
+   the implementation by the harness). *)
+Theorem multi_namespace_title_case_refuted :
+  exists labels titles, assign_titles labels [] = Ok titles /\ NoDup titles
+    /\ exists t, In t titles /\ resolve_in (tab_of (map (fun x => (x, @nil text)) titles)) (Some t) [] = Err ParseErr.
+Proof. exact title_case_refuted_l. Qed.
+Print Assumptions multi_namespace_title_case_refuted.
